@@ -180,9 +180,12 @@ def run_twin(case, compare_sections=('params', 'rg', 'flags', 'grads'), probe_fo
                 torch.manual_seed(torch_seed(run_seed, 'rebuild-prologue', idx))
                 res, fresh_sd, saved_sd = S.crash_restart(torch_seed(run_seed, 'rebuild', idx),
                                                           stale_example=op.get('stale_example', False),
-                                                          prologue=op.get('prologue', ()))
+                                                          prologue=op.get('prologue', ()),
+                                                          config_after_load=op.get('config_after_load', False))
                 if op.get('prologue'):
                     bump('fault_restart_with_script_prologue')
+                if op.get('config_after_load'):
+                    bump('fault_restart_config_reissued_after_load')
             except Exception as e:
                 fail('restoring the checkpoint into a freshly constructed wrapper raised', 'restore-raises',
                      f'{type(e).__name__}: {str(e)[:300]}', 'restart')
